@@ -532,6 +532,12 @@ func OpenInOnly(t Target, connID string) (*Legacy, error) {
 	return l, l.OpenIn(t, connID)
 }
 
+// AdoptIn takes over the RDG_IN_DATA connection that other opened (for the same connection id).
+func (l *Legacy) AdoptIn(other *Legacy) {
+	l.in, l.inRaw, l.inEOF, l.InHead = other.in, other.inRaw, other.inEOF, other.InHead
+	other.in, other.inRaw = nil, nil
+}
+
 // OpenInOnlyHeld is OpenInOnly without the preamble (SendPreamble sends it).
 func OpenInOnlyHeld(t Target, connID string) (*Legacy, error) {
 	l := &Legacy{collector: newCollector(), HoldPreamble: true}
